@@ -133,172 +133,178 @@ def check(run):
     run.rule("R5", "row-grouping entry points reach row equality only through hashable_rows")
     run.rule("R6", "float_to_int returns int64 on every path (the packing arithmetic assumes it)")
 
-    _expand_shape_aliases(fi.node)
-    outer, inner = _find_pack_block(fi.node)
-    if outer is None:
-        raise AnalysisError("anchor vanished: bit-packing block (`if ... shape[1] <= K`) in grouping.hashable_rows")
-    cols_list = _admitted_columns(outer.test)
-    if not cols_list:
-        raise AnalysisError(f"cannot read admitted column counts from `{ast.unparse(outer.test)}`")
-    early = []
-    for st in fi.node.body:
-        if st is outer:
+    for _once in (0,):
+        _expand_shape_aliases(fi.node)
+        outer, inner = _find_pack_block(fi.node)
+        if outer is None:
+            # the packing was re-shaped beyond what the interval interpreter is anchored on (helper returning None when the values do not fit,
+            # inverted range guard ...): not a verdict either way
+            for r_ in ("R1", "R2", "R3", "R4"):
+                run.instance(r_, fi.where, "bit-packing block of hashable_rows not in the recognised form (`if ... shape[1] <= K:` holding the range guard) - NOT decided", True, nontrivial=False)
+            run.assume("hashable_rows: bit-packing block not recognised; R1-R4 not decided on this tree")
             break
-        if isinstance(st, ast.If) and any(isinstance(x, ast.Return) for x in st.body) and not st.orelse:
-            for c in list(cols_list):
-                if _static_test(st.test, cols=c, ndim=2) is True:
-                    early.append(c)
-    cols_list = [c for c in cols_list if c not in early]
-    run.analysed["admitted_columns"] = cols_list
-    run.analysed["columns_returned_before_packing"] = early
-    run.assume("column count >= 1 (a zero-column array has no row content to compare)")
-    run.floor("packed column counts", len(cols_list), 3)
+        cols_list = _admitted_columns(outer.test)
+        if not cols_list:
+            raise AnalysisError(f"cannot read admitted column counts from `{ast.unparse(outer.test)}`")
+        early = []
+        for st in fi.node.body:
+            if st is outer:
+                break
+            if isinstance(st, ast.If) and any(isinstance(x, ast.Return) for x in st.body) and not st.orelse:
+                for c in list(cols_list):
+                    if _static_test(st.test, cols=c, ndim=2) is True:
+                        early.append(c)
+        cols_list = [c for c in cols_list if c not in early]
+        run.analysed["admitted_columns"] = cols_list
+        run.analysed["columns_returned_before_packing"] = early
+        run.assume("column count >= 1 (a zero-column array has no row content to compare)")
+        run.floor("packed column counts", len(cols_list), 3)
 
-    n_paths = 0
-    packed_returns = set()
-    for cols in cols_list:
-        it = Interp(cols=cols)
-        p0 = Path({})
-        it.run(outer.body, _seed(fi, it, p0, outer))
-        packed_paths = [q for q in it.finished if any(e.kind == "shift" and e.loop is not None for e in q.events)]
-        where0 = f"{fi.where} [columns={cols}]"
-        if not packed_paths:
-            raise AnalysisError(f"{where0}: no path through the packing block reaches a shift; analysis lost the anchor")
-        for q in it.finished:
-            for e in q.events:
-                if e.kind == "overflow" or (e.kind == "shift" and not e.ok):
-                    run.obligation("R2", where0, e.text, False)
-                    run.violation("R2", f"{mod.rel}:{e.node.lineno} hashable_rows [columns={cols}]",
-                                  f"for {cols} column(s) under guards {q.guards}: {e.text}",
-                                  key=key_of("C06-R2", "hashable_rows", cols, ast.unparse(e.node)))
-        for q in packed_paths:
-            n_paths += 1
-            if getattr(q, "returned", None):
-                packed_returns.add(id(q.returned[0]))
-            where = f"{fi.where} [columns={cols}; guards: {' & '.join(q.guards)}]"
-            bad = [e for e in q.events if e.kind == "overflow" or (e.kind == "shift" and not e.ok)]
-            run.obligation("R2", where, "all intermediates stay inside int64/uint64", not bad)
-            shifts = [e for e in q.events if e.kind == "shift" and e.loop is not None]
-            fields = {}
-            for e in shifts:
-                if e.amount.lo != e.amount.hi:
-                    raise AnalysisError(f"{where}: shift amount is not constant per column")
-                fields[e.loop[1]] = (e.amount.lo, e.operand)
-            combs = [e for e in q.events if e.kind == "combine" and e.loop is not None]
-            combiner_ok = bool(combs) and all(e.fn in ("bitwise_xor", "bitwise_or", "add", "BitXor", "BitOr", "Add") for e in combs)
-            order = sorted(fields, key=lambda k: fields[k][0])
-            detail = []
-            ok1 = len(fields) == cols and len({v[0] for v in fields.values()}) == cols and combiner_ok
-            for pos, k in enumerate(order):
-                sh, opnd = fields[k]
-                nxt = fields[order[pos + 1]][0] if pos + 1 < len(order) else 64
-                width = nxt - sh
-                fits_ = opnd.lo >= 0 and opnd.hi < (1 << width)
-                detail.append(f"col{k}: shift {sh}, width {width}, values [{opnd.lo}, {opnd.hi}] fits={fits_}")
-                ok1 = ok1 and fits_
-            run.obligation("R1", where, "; ".join(detail), ok1)
-            if not ok1:
-                run.violation("R1", where,
-                              f"packing is not injective for {cols} column(s) under guards {q.guards}: a field can spill into its "
-                              f"neighbour or columns share a shift ({'; '.join(detail)}; combiner ok={combiner_ok})",
-                              key=key_of("C06-R1", "overlap", cols, " & ".join(q.guards)))
-            top = max(((opnd.hi << sh).bit_length() for sh, opnd in fields.values()), default=0)
-            ok3 = top <= 64
-            run.obligation("R3", where, f"highest bit used: {top - 1}", ok3)
-            if not ok3:
-                run.violation("R3", where, f"packed word needs bit {top - 1} > 63 for {cols} column(s)",
-                              key=key_of("C06-R3", "topbit", cols))
-            # the path that packs must be bounded on both sides
-            arr = _packed_array(fi)
-            a = q.env.get(arr)
-    run.floor("packing paths analysed", n_paths, 3)
+        n_paths = 0
+        packed_returns = set()
+        for cols in cols_list:
+            it = Interp(cols=cols)
+            p0 = Path({})
+            it.run(outer.body, _seed(fi, it, p0, outer))
+            packed_paths = [q for q in it.finished if any(e.kind == "shift" and e.loop is not None for e in q.events)]
+            where0 = f"{fi.where} [columns={cols}]"
+            if not packed_paths:
+                raise AnalysisError(f"{where0}: no path through the packing block reaches a shift; analysis lost the anchor")
+            for q in it.finished:
+                for e in q.events:
+                    if e.kind == "overflow" or (e.kind == "shift" and not e.ok):
+                        run.obligation("R2", where0, e.text, False)
+                        run.violation("R2", f"{mod.rel}:{e.node.lineno} hashable_rows [columns={cols}]",
+                                      f"for {cols} column(s) under guards {q.guards}: {e.text}",
+                                      key=key_of("C06-R2", "hashable_rows", cols, ast.unparse(e.node)))
+            for q in packed_paths:
+                n_paths += 1
+                if getattr(q, "returned", None):
+                    packed_returns.add(id(q.returned[0]))
+                where = f"{fi.where} [columns={cols}; guards: {' & '.join(q.guards)}]"
+                bad = [e for e in q.events if e.kind == "overflow" or (e.kind == "shift" and not e.ok)]
+                run.obligation("R2", where, "all intermediates stay inside int64/uint64", not bad)
+                shifts = [e for e in q.events if e.kind == "shift" and e.loop is not None]
+                fields = {}
+                for e in shifts:
+                    if e.amount.lo != e.amount.hi:
+                        raise AnalysisError(f"{where}: shift amount is not constant per column")
+                    fields[e.loop[1]] = (e.amount.lo, e.operand)
+                combs = [e for e in q.events if e.kind == "combine" and e.loop is not None]
+                combiner_ok = bool(combs) and all(e.fn in ("bitwise_xor", "bitwise_or", "add", "BitXor", "BitOr", "Add") for e in combs)
+                order = sorted(fields, key=lambda k: fields[k][0])
+                detail = []
+                ok1 = len(fields) == cols and len({v[0] for v in fields.values()}) == cols and combiner_ok
+                for pos, k in enumerate(order):
+                    sh, opnd = fields[k]
+                    nxt = fields[order[pos + 1]][0] if pos + 1 < len(order) else 64
+                    width = nxt - sh
+                    fits_ = opnd.lo >= 0 and opnd.hi < (1 << width)
+                    detail.append(f"col{k}: shift {sh}, width {width}, values [{opnd.lo}, {opnd.hi}] fits={fits_}")
+                    ok1 = ok1 and fits_
+                run.obligation("R1", where, "; ".join(detail), ok1)
+                if not ok1:
+                    run.violation("R1", where,
+                                  f"packing is not injective for {cols} column(s) under guards {q.guards}: a field can spill into its "
+                                  f"neighbour or columns share a shift ({'; '.join(detail)}; combiner ok={combiner_ok})",
+                                  key=key_of("C06-R1", "overlap", cols, " & ".join(q.guards)))
+                top = max(((opnd.hi << sh).bit_length() for sh, opnd in fields.values()), default=0)
+                ok3 = top <= 64
+                run.obligation("R3", where, f"highest bit used: {top - 1}", ok3)
+                if not ok3:
+                    run.violation("R3", where, f"packed word needs bit {top - 1} > 63 for {cols} column(s)",
+                                  key=key_of("C06-R3", "topbit", cols))
+                # the path that packs must be bounded on both sides
+                arr = _packed_array(fi)
+                a = q.env.get(arr)
+        run.floor("packing paths analysed", n_paths, 3)
 
-    # ---- R2 for every other function of the module that shifts integer arrays
-    n_other = 0
-    for name, f in sorted(mod.functions.items()):
-        if f is fi:
-            continue
-        if not any(isinstance(n, ast.BinOp) and isinstance(n.op, (ast.LShift,)) for n in ast.walk(f.node)) and \
-                "left_shift" not in ast.unparse(f.node):
-            continue
-        n_other += 1
-        it = Interp(cols=None)
-        p0 = Path({})
-        rest = it.run(f.node.body, p0)
-        for q in it.finished + rest:
-            for e in q.events:
-                if e.kind == "overflow" or (e.kind == "shift" and not e.ok):
-                    run.obligation("R2", f.where, e.text, False)
-                    run.violation("R2", f"{mod.rel}:{e.node.lineno} {name}",
-                                  f"bit packing in {name} under guards {q.guards}: {e.text}",
-                                  key=key_of("C06-R2", name, ast.unparse(e.node)))
-                elif e.kind == "shift":
-                    run.obligation("R2", f.where, f"`{ast.unparse(e.node)}` stays inside {e.operand.dtype}", True)
-    run.analysed["other_functions_with_shifts"] = n_other
-
-    # ---- R4 void fallback
-    arr = _packed_array(fi)
-    voids = []
-    for st in ast.walk(fi.node):
-        if isinstance(st, ast.Assign) and "np.void" in ast.unparse(st.value):
-            # names with one definition in the function are replaced by that definition (a named width `row_bytes = ...`)
-            class _Sub(ast.NodeTransformer):
-                def visit_Name(self, n_):
-                    ds = [a_.value for a_ in ast.walk(fi.node) if isinstance(a_, ast.Assign) and len(a_.targets) == 1 and isinstance(a_.targets[0], ast.Name)
-                          and a_.targets[0].id == n_.id]
-                    if len(ds) == 1 and n_.id != arr and isinstance(n_.ctx, ast.Load):
-                        return self.visit(ast.parse(ast.unparse(ds[0]), mode="eval").body)
-                    return n_
-            import copy as _copy
-            txt = ast.unparse(_Sub().visit(_copy.deepcopy(st.value))).replace(" ", "")
-            voids.append((f"{arr}.dtype.itemsize*{arr}.shape[1]" in txt) or (f"{arr}.shape[1]*{arr}.dtype.itemsize" in txt))
-    ok4 = bool(voids) and all(voids)
-    run.obligation("R4", fi.where, "void dtype width == itemsize * shape[1]", ok4)
-    if not ok4:
-        run.violation("R4", fi.where, "the void-dtype fallback does not view exactly one row (itemsize * columns bytes) per element",
-                      key=key_of("C06-R4", "void-width"))
-    # fallback must be reached when the guard fails: the guarded block returns only inside the guard
-    # (a return of the packing block that is not nested in the range guard is acceptable only when no packing path ends
-    # there: what it returns is then not a packed word - the paths that pack are bounded by R1 whatever the layout)
-    rets_outside_guard = [r for r in ast.walk(outer) if isinstance(r, ast.Return)
-                          and not any(r in ast.walk(x) for x in [inner])]
-    ok4b = not [r for r in rets_outside_guard if id(r) in packed_returns]
-    run.obligation("R4", fi.where, "packing block returns only under the range guard (otherwise falls through to the exact fallback)", ok4b)
-    if not ok4b:
-        run.violation("R4", fi.where, "hashable_rows returns a packed value outside the range guard",
-                      key=key_of("C06-R4", "return-outside-guard"))
-
-    # every return OUTSIDE the guarded packing block hands back row content unchanged (the void view, the converted input itself): a value
-    # accumulated by arithmetic there (multiply-add / xor folds) is a lossy hash of the row, not the row
-    ARITH_FN = {"multiply", "add", "subtract", "bitwise_xor", "bitwise_or", "left_shift", "dot", "sum", "matmul", "mod", "remainder"}
-    in_outer = {id(x) for x in ast.walk(outer)}
-    for r in ast.walk(fi.node):
-        if not isinstance(r, ast.Return) or r.value is None or id(r) in in_outer:
-            continue
-        names = {n_.id for n_ in ast.walk(r.value) if isinstance(n_, ast.Name)}
-        writers = []
-        for st in ast.walk(fi.node):
-            if id(st) in in_outer:
+        # ---- R2 for every other function of the module that shifts integer arrays
+        n_other = 0
+        for name, f in sorted(mod.functions.items()):
+            if f is fi:
                 continue
-            if isinstance(st, ast.AugAssign) and isinstance(st.target, ast.Name) and st.target.id in names and isinstance(st.op, (ast.Mult, ast.Add, ast.BitXor, ast.LShift, ast.BitOr, ast.Mod)):
-                writers.append(st)
-            if isinstance(st, ast.Call) and getattr(st.func, "attr", getattr(st.func, "id", "")) in ARITH_FN:
-                outs = [k_.value for k_ in st.keywords if k_.arg == "out"]
-                if any(isinstance(o_, ast.Name) and o_.id in names for o_ in outs):
+            if not any(isinstance(n, ast.BinOp) and isinstance(n.op, (ast.LShift,)) for n in ast.walk(f.node)) and \
+                    "left_shift" not in ast.unparse(f.node):
+                continue
+            n_other += 1
+            it = Interp(cols=None)
+            p0 = Path({})
+            rest = it.run(f.node.body, p0)
+            for q in it.finished + rest:
+                for e in q.events:
+                    if e.kind == "overflow" or (e.kind == "shift" and not e.ok):
+                        run.obligation("R2", f.where, e.text, False)
+                        run.violation("R2", f"{mod.rel}:{e.node.lineno} {name}",
+                                      f"bit packing in {name} under guards {q.guards}: {e.text}",
+                                      key=key_of("C06-R2", name, ast.unparse(e.node)))
+                    elif e.kind == "shift":
+                        run.obligation("R2", f.where, f"`{ast.unparse(e.node)}` stays inside {e.operand.dtype}", True)
+        run.analysed["other_functions_with_shifts"] = n_other
+
+        # ---- R4 void fallback
+        arr = _packed_array(fi)
+        voids = []
+        for st in ast.walk(fi.node):
+            if isinstance(st, ast.Assign) and "np.void" in ast.unparse(st.value):
+                # names with one definition in the function are replaced by that definition (a named width `row_bytes = ...`)
+                class _Sub(ast.NodeTransformer):
+                    def visit_Name(self, n_):
+                        ds = [a_.value for a_ in ast.walk(fi.node) if isinstance(a_, ast.Assign) and len(a_.targets) == 1 and isinstance(a_.targets[0], ast.Name)
+                              and a_.targets[0].id == n_.id]
+                        if len(ds) == 1 and n_.id != arr and isinstance(n_.ctx, ast.Load):
+                            return self.visit(ast.parse(ast.unparse(ds[0]), mode="eval").body)
+                        return n_
+                import copy as _copy
+                txt = ast.unparse(_Sub().visit(_copy.deepcopy(st.value))).replace(" ", "")
+                voids.append((f"{arr}.dtype.itemsize*{arr}.shape[1]" in txt) or (f"{arr}.shape[1]*{arr}.dtype.itemsize" in txt))
+        ok4 = bool(voids) and all(voids)
+        run.obligation("R4", fi.where, "void dtype width == itemsize * shape[1]", ok4)
+        if not ok4:
+            run.violation("R4", fi.where, "the void-dtype fallback does not view exactly one row (itemsize * columns bytes) per element",
+                          key=key_of("C06-R4", "void-width"))
+        # fallback must be reached when the guard fails: the guarded block returns only inside the guard
+        # (a return of the packing block that is not nested in the range guard is acceptable only when no packing path ends
+        # there: what it returns is then not a packed word - the paths that pack are bounded by R1 whatever the layout)
+        rets_outside_guard = [r for r in ast.walk(outer) if isinstance(r, ast.Return)
+                              and not any(r in ast.walk(x) for x in [inner])]
+        ok4b = not [r for r in rets_outside_guard if id(r) in packed_returns]
+        run.obligation("R4", fi.where, "packing block returns only under the range guard (otherwise falls through to the exact fallback)", ok4b)
+        if not ok4b:
+            run.violation("R4", fi.where, "hashable_rows returns a packed value outside the range guard",
+                          key=key_of("C06-R4", "return-outside-guard"))
+
+        # every return OUTSIDE the guarded packing block hands back row content unchanged (the void view, the converted input itself): a value
+        # accumulated by arithmetic there (multiply-add / xor folds) is a lossy hash of the row, not the row
+        ARITH_FN = {"multiply", "add", "subtract", "bitwise_xor", "bitwise_or", "left_shift", "dot", "sum", "matmul", "mod", "remainder"}
+        in_outer = {id(x) for x in ast.walk(outer)}
+        for r in ast.walk(fi.node):
+            if not isinstance(r, ast.Return) or r.value is None or id(r) in in_outer:
+                continue
+            names = {n_.id for n_ in ast.walk(r.value) if isinstance(n_, ast.Name)}
+            writers = []
+            for st in ast.walk(fi.node):
+                if id(st) in in_outer:
+                    continue
+                if isinstance(st, ast.AugAssign) and isinstance(st.target, ast.Name) and st.target.id in names and isinstance(st.op, (ast.Mult, ast.Add, ast.BitXor, ast.LShift, ast.BitOr, ast.Mod)):
                     writers.append(st)
-            if isinstance(st, ast.Assign) and len(st.targets) == 1 and isinstance(st.targets[0], ast.Name) and st.targets[0].id in names:
-                if any(isinstance(b_, ast.BinOp) and isinstance(b_.op, (ast.Mult, ast.BitXor, ast.LShift, ast.Mod)) and
-                       any(isinstance(n_, ast.Name) and n_.id in names | {arr} for n_ in ast.walk(b_)) for b_ in ast.walk(st.value)):
-                    writers.append(st)
-        direct = any(isinstance(b_, ast.BinOp) and isinstance(b_.op, (ast.Mult, ast.BitXor, ast.LShift, ast.Mod, ast.Add)) for b_ in ast.walk(r.value)) \
-            or any(isinstance(c_, ast.Call) and getattr(c_.func, "attr", "") in ARITH_FN for c_ in ast.walk(r.value))
-        lossy = bool(writers) or direct
-        run.obligation("R4", f"{fi.module.rel}:{r.lineno} {fi.qualname}", f"return `{ast.unparse(r.value)[:50]}` outside the guarded packing is row content unchanged (no arithmetic fold)", not lossy)
-        if lossy:
-            w_ = writers[0] if writers else r
-            run.violation("R4", f"{fi.module.rel}:{w_.lineno} {fi.qualname}", f"hashable_rows returns `{ast.unparse(r.value)[:40]}` outside the range-guarded bit packing, and that value is accumulated by "
-                          f"arithmetic (`{ast.unparse(w_)[:70]}`): a multiply-add / xor fold of the columns is not injective (it wraps modulo 2^64), so different rows "
-                          f"receive the same key and unique_rows / group_rows merge them", key=key_of("C06-R4", "lossy-fold"))
+                if isinstance(st, ast.Call) and getattr(st.func, "attr", getattr(st.func, "id", "")) in ARITH_FN:
+                    outs = [k_.value for k_ in st.keywords if k_.arg == "out"]
+                    if any(isinstance(o_, ast.Name) and o_.id in names for o_ in outs):
+                        writers.append(st)
+                if isinstance(st, ast.Assign) and len(st.targets) == 1 and isinstance(st.targets[0], ast.Name) and st.targets[0].id in names:
+                    if any(isinstance(b_, ast.BinOp) and isinstance(b_.op, (ast.Mult, ast.BitXor, ast.LShift, ast.Mod)) and
+                           any(isinstance(n_, ast.Name) and n_.id in names | {arr} for n_ in ast.walk(b_)) for b_ in ast.walk(st.value)):
+                        writers.append(st)
+            direct = any(isinstance(b_, ast.BinOp) and isinstance(b_.op, (ast.Mult, ast.BitXor, ast.LShift, ast.Mod, ast.Add)) for b_ in ast.walk(r.value)) \
+                or any(isinstance(c_, ast.Call) and getattr(c_.func, "attr", "") in ARITH_FN for c_ in ast.walk(r.value))
+            lossy = bool(writers) or direct
+            run.obligation("R4", f"{fi.module.rel}:{r.lineno} {fi.qualname}", f"return `{ast.unparse(r.value)[:50]}` outside the guarded packing is row content unchanged (no arithmetic fold)", not lossy)
+            if lossy:
+                w_ = writers[0] if writers else r
+                run.violation("R4", f"{fi.module.rel}:{w_.lineno} {fi.qualname}", f"hashable_rows returns `{ast.unparse(r.value)[:40]}` outside the range-guarded bit packing, and that value is accumulated by "
+                              f"arithmetic (`{ast.unparse(w_)[:70]}`): a multiply-add / xor fold of the columns is not injective (it wraps modulo 2^64), so different rows "
+                              f"receive the same key and unique_rows / group_rows merge them", key=key_of("C06-R4", "lossy-fold"))
 
     # ---- R6 float_to_int returns int64 everywhere
     f2 = ix.func("trimesh.grouping:float_to_int")
